@@ -14,4 +14,13 @@ def check(A):
         C.send_packet_rule(A, cf, 'C09')
         C.connect_rules(A, cf, 'C09')
         C.send_request_rule(A, cf, 'C09')
+        C.reset_rules(A, cf, 'C09')
     C.url_rule(A, 'C09')
+    # what the client puts on the wire / echoes in a PONG is Packet.encode's text form for
+    # every payload, the falsy ones included (rule shared with C01)
+    from . import C01
+    import copy
+    msg = A.model.const_value(A.model.module('packet'), 'MESSAGE')
+    sub = copy.copy(A)
+    sub.obligations = []
+    C01.encode_cases(A, C01.constructor_cases(sub, msg), prefix='C09')
